@@ -34,8 +34,15 @@ MESSAGES = [None, "E901", "Formatprüfung »fehlgeschlagen« ✗", "'a' oder \"b
 PKG_TABLE = {"1P": "[1]U[501]", "2P": "([2]O[3])[901]", "3P": "[UB1]U[4]", "10P": "[5][902]"}
 
 
+_SCHEMA_INSTANCES = {}
+
+
 def round_trip(ctx, what, schema, obj, compare=None):
     """dumps -> loads; returns the loaded object or None after reporting"""
+    if ctx.rng.random() < 0.5:
+        # applications keep one schema instance around: half of the round trips go through a long-lived instance per schema class
+        schema = _SCHEMA_INSTANCES.setdefault(type(schema), schema)
+        ctx.count("round_trips_through_long_lived_schema_instances")
     ctx.evaluation()
     ctx.count("round_trips:" + what)
     dumped = capture(schema.dumps, obj)
